@@ -37,7 +37,7 @@ func (c18) Cases(c *Ctx) int { return c.Pick(150, 2500) }
 // Gen samples ranges of every integer kind (placed at type extremes and from the hostile pool) and float ranges.
 func (c18) Gen(dt *drv.T, c *Ctx) any {
 	cs := &C18Case{Base: drv.IntRange(0, 1<<30).Draw(dt, "base")}
-	menu := []string{"bands", "bands", "edges", "fbands", "fedges", "freach"}
+	menu := []string{"bands", "bands", "edges", "fbands", "fedges", "freach", "reachsmall"}
 	if !c.Thorough() {
 		menu = append(menu, "reach8", "reach8")
 	}
@@ -90,6 +90,40 @@ func (c18) Gen(dt *drv.T, c *Ctx) any {
 				a, b = b, a
 			}
 			cs.UA, cs.UB = a, b
+		}
+	case "reachsmall":
+		// a range of at most 256 values of any integer kind, placed anywhere (type extremes, around zero, at powers
+		// of two): every value has to be produced, like for the 8-bit kinds
+		cs.N = 65536
+		cs.IK = drv.SampledFrom(intKinds).Draw(dt, "ik")
+		span := uint64(drv.IntRange(1, 255).Draw(dt, "span"))
+		if intSigned(cs.IK) {
+			lo, hi := sBounds(cs.IK)
+			a := genSBound(dt, cs.IK, "a")
+			if chance(dt, "aroundzero", 25) {
+				a = -int64(drv.IntRange(0, int(span)).Draw(dt, "below"))
+				if a < lo {
+					a = lo
+				}
+			}
+			if a > hi-int64(span) {
+				a = hi - int64(span)
+			}
+			if a < lo {
+				a = lo
+			}
+			b := a + int64(span)
+			if b > hi {
+				b = hi
+			}
+			cs.SA, cs.SB = a, b
+		} else {
+			hi := uMax(cs.IK)
+			a := genUBound(dt, cs.IK, "a")
+			if a > hi-span {
+				a = hi - span
+			}
+			cs.UA, cs.UB = a, a+span
 		}
 	case "freach":
 		// a float range of a few representable values: every one of them has to be produced
@@ -345,6 +379,38 @@ func (p c18) Run(c *Ctx, csAny any) Outcome {
 					return out
 				}
 			}
+		}
+	case "reachsmall":
+		seenS, seenU := map[int64]int{}, map[uint64]int{}
+		intExamples(cs, func(sv int64, uv uint64) { seenS[sv]++; seenU[uv]++ })
+		if intSigned(cs.IK) {
+			for v := cs.SA; ; v++ {
+				if seenS[v] == 0 {
+					out.Viol = violf("C18:value-unreachable:small-range", "%s: value %d never produced in %d draws", desc, v, cs.N)
+					return out
+				}
+				if seenS[v] < 20 {
+					out.Classes = append(out.Classes, "asserted-int-value-with-fewer-than-20-hits")
+				}
+				if v == cs.SB {
+					break
+				}
+			}
+			out.NonTrivial = cs.SB-cs.SA >= 2
+		} else {
+			for v := cs.UA; ; v++ {
+				if seenU[v] == 0 {
+					out.Viol = violf("C18:value-unreachable:small-range", "%s: value %d never produced in %d draws", desc, v, cs.N)
+					return out
+				}
+				if seenU[v] < 20 {
+					out.Classes = append(out.Classes, "asserted-int-value-with-fewer-than-20-hits")
+				}
+				if v == cs.UB {
+					break
+				}
+			}
+			out.NonTrivial = cs.UB-cs.UA >= 2
 		}
 	case "freach":
 		lo, hi := math.Float64frombits(cs.UA), math.Float64frombits(cs.UB)
